@@ -95,7 +95,8 @@ PROPS = {
     level_text="Lean 4 proof: each payload generation is destroyed at most once and exactly once when its last handle is gone, a held slot is never re-allocated or overwritten, capacity is restored when everything is released (handles model); teardown: a general theorem characterises the field orders under which dropping a channel with buffered handles touches no freed pool memory, instantiated by `decide` on the field orders GENERATED from the current source on every run. Tied to the code by step-level replay + child-process teardown histories with an instrumented payload.",
     level_note=LN_HANDLES + " The teardown model is a region protocol (pool alive/freed): the allocator-level use-after-free itself is only observed on the real code as a crash of the child process.",
     lean=["C05"],
-    scenarios=[handles("atomic", 1200), handles("fullsync", 1200), dict(bin="teardown", args=[], runs=100, model=False, single=True, thorough_scale=10, model_name="Teardown (generated field orders)")],
+    scenarios=[handles("atomic", 1200), handles("fullsync", 1200), dict(bin="teardown", args=[], runs=100, model=False, single=True, thorough_scale=10, model_name="Teardown (generated field orders)")] +
+              [dict(bin="multi", args=[f"kind={k}", f"sub={sub}", "drains=1"], runs=300, model_name="M6+M7 Multi", kinds=["destroyed_while_held", "slot_reused_while_held", "held_value_changed", "panic"]) for k in ["ogre_atomic", "ogre_fullsync", "arc_atomic"] for sub in ["fan", "churn"]],
     rule=HANDLES_RULE + "; teardown: histories (events sent, consumed, handles released before/after) per channel kind, each in a child process",
     trusted_base=TB_COMMON + ["tools/extract.py (field-order translator): a mis-parse makes the generated obligation fail or pass wrongly; its output is committed to the evidence"],
     assumptions=["payload handles do not outlive their channel", "setters initialise the slot without reading or dropping its previous bytes"],
@@ -126,8 +127,9 @@ PROPS = {
     lean=["C04"],
     scenarios=[dict(bin="uni", args=[f"kind={k}", "sub=flow"], runs=500, model_name="M8 Wake", kinds=["lost_wakeup", "no_progress", "panic"]) for k in UNI_KINDS] +
               [dict(bin="uni", args=[f"kind={k}", "sub=flow"], runs=300, model_name="M8 Wake", kinds=["lost_wakeup", "no_progress", "panic"]) for k in MULTI1_KINDS] +
-              [dict(bin="uni", args=[f"kind={k}", "sub=fine"], runs=300, model=False, model_name="(oracle only)", kinds=["lost_wakeup", "no_progress", "panic"]) for k in UNI_KINDS],
-    rule=UNI_RULE,
+              [dict(bin="uni", args=[f"kind={k}", "sub=fine"], runs=300, model=False, model_name="(oracle only)", kinds=["lost_wakeup", "no_progress", "panic"]) for k in UNI_KINDS] +
+              [dict(bin="mmaplog", args=["sub=wake"], runs=600, model=False, model_name="(oracle only: log channel, parked listener tasks)", kinds=["lost_wakeup", "no_progress", "panic"])],
+    rule=UNI_RULE + "; log channel (`mmaplog sub=wake`): 1-2 new-events listeners driven by tasks that are polled only while notified, 1-3 producers (send / send_with), yield points at every log-topic access and every wake-protocol access",
     trusted_base=TB_COMMON + ["crossbeam-channel: linearizable bounded queue with a linearizable len()", "the hand-rolled executor of the harness (re-polls a parked task iff its waker fired, or spuriously) stands for tokio's"],
     assumptions=["streams 0..k-1 of a Uni channel exist for the whole run (documented use)", "MAX_STREAMS >= 1"],
  ),
@@ -177,7 +179,7 @@ PROPS = {
     level_text="Lean 4 proof over sequential histories of any length (create / send / receive-some / drop with leftovers / release, any MAX_STREAMS, both fan-out flavours) of the stream-id bookkeeping and fan-out model: vacant and live ids always partition 0..MAX-1, the used list is the sorted live ids followed by sentinels, the running count equals the number of live listeners, create never runs out of ids while fewer than MAX are live, a dropped id becomes vacant again; with the (repaired) drain-on-drop a listener's queue is empty when its id is handed out, and what a listener receives is exactly, in order and without repetition, a prefix of the events sent during its lifetime (all of them once it polled to empty); counterexample theorem for the pinned behaviour (stale events). Tied to the five real queue-per-listener Multi channels by step-level replay of random histories at the granularity of every bookkeeping access.",
     level_note="Theorem about model M6+M7 in which a per-listener queue operation is one step (rings: C02; crossbeam trusted); histories are sequential (the property's quantifier); concurrent churn is C17. The Uni channels use the same StreamsManagerBase code (bookkeeping part of the theorem applies verbatim).",
     lean=["C10"],
-    scenarios=[dict(bin="multi", args=[f"kind={k}", "sub=hist", "drains=1"], runs=400, model_name="M6+M7 Multi", kinds=["stale_event", "invented", "duplicate", "order", "missed_event", "panic", "no_progress", "different_allocation"]) for k in MULTI_KINDS],
+    scenarios=[dict(bin="multi", args=[f"kind={k}", "sub=hist", "drains=1"], runs=400, model_name="M6+M7 Multi", kinds=["destroyed_while_held", "slot_reused_while_held", "held_value_changed", "stale_event", "invented", "duplicate", "order", "missed_event", "panic", "no_progress", "different_allocation"]) for k in MULTI_KINDS],
     rule="one thread, random history of length 4-22 of create-listener / send / receive 1-8 / drop-listener (with or without unconsumed events), MAX_STREAMS in {1,2,4}; DISTINCT by trace hash; NON-TRIVIAL if a listener was dropped and at least two were created",
     trusted_base=TB_COMMON + ["crossbeam-channel: linearizable bounded queue"],
     assumptions=[],
@@ -226,7 +228,7 @@ PROPS = {
     level_text="Lean 4 proof on the fan-out model, from any well-formed state with a fixed set of listeners and for ANY interleaving of any number of producers' fan-out loops with the listeners' polls: the listener bookkeeping is untouched, every completed send published its event exactly once to every listener and to nobody else, each listener's deliveries followed by its queue are exactly the publications to it in publication order (so it receives every event once, in order, and one producer's events in that producer's order), ogre_arc reference counts return to zero once every copy is released. All listeners receive the same allocation (checked by the oracle: Arc pointer / pool slot). The log channel's listeners are covered by the C09 theorems (same total order for everybody). Tied to the five queue-per-listener Multi channels by step-level replay at the granularity of the fan-out loop positions, and to the log channel by its own scenario.",
     level_note="Theorem about model M6+M7 in which a per-listener queue operation is one step (rings: C02; crossbeam trusted); sequences shorter than the buffer, as the property says (the arc channels' wait-when-full loop is never entered).",
     lean=["C03", "C09"],
-    scenarios=[dict(bin="multi", args=[f"kind={k}", "sub=fan", "drains=1"], runs=300, model_name="M6+M7 Multi", kinds=["invented", "duplicate", "order", "missed_event", "different_allocation", "stale_event", "storage_leaked", "panic", "no_progress"]) for k in MULTI_KINDS] +
+    scenarios=[dict(bin="multi", args=[f"kind={k}", "sub=fan", "drains=1"], runs=300, model_name="M6+M7 Multi", kinds=["destroyed_while_held", "slot_reused_while_held", "held_value_changed", "invented", "duplicate", "order", "missed_event", "different_allocation", "stale_event", "storage_leaked", "panic", "no_progress"]) for k in MULTI_KINDS] +
               [dict(bin="mmaplog", args=[], runs=300, model_name="M9 MmapLog")],
     rule="1..MAX_STREAMS listeners (MAX in {1,2,4}) created up front, 1-2 producers sending 1-3 events each, one consumer per listener polling 1-4 times, then a drain; yield points at every fan-out loop position and poll; DISTINCT by trace hash; NON-TRIVIAL if more than one fan-out step occurred",
     trusted_base=TB_COMMON + ["crossbeam-channel: linearizable bounded queue", "std::sync::Arc"],
@@ -236,7 +238,7 @@ PROPS = {
     level_text="PARTIAL proof: the C03 theorems (no create/drop micro-step between the first and last step of a send) and the C09 theorems for the log channel (a late subscriber gets a suffix, the others are unaffected); for arbitrary interleavings of listener creation / removal with the fan-out loop the property is FALSE of the code and of the model: three counterexample theorems (missed event, leaked pool slot, torn list) whose executions are exhibited on the real channels by the churn scenario and recorded as known findings. Tied to the code by step-level replay of the churn runs (the model reproduces the misbehaviour step by step).",
     level_note="Known findings D7-miss, D7-stale, D7-leak (known_findings.json). What is proved is the fixed-listener case; the full statement does not hold.",
     lean=["C17", "C03"],
-    scenarios=[dict(bin="multi", args=[f"kind={k}", "sub=churn", "drains=1"], runs=300, model_name="M6+M7 Multi", kinds=["missed_event", "stale_event", "storage_leaked", "invented", "duplicate", "order", "different_allocation", "panic", "no_progress"]) for k in MULTI_KINDS] +
+    scenarios=[dict(bin="multi", args=[f"kind={k}", "sub=churn", "drains=1"], runs=300, model_name="M6+M7 Multi", kinds=["destroyed_while_held", "slot_reused_while_held", "held_value_changed", "missed_event", "stale_event", "storage_leaked", "invented", "duplicate", "order", "different_allocation", "panic", "no_progress"]) for k in MULTI_KINDS] +
               [dict(bin="mmaplog", args=[], runs=300, model_name="M9 MmapLog")],
     rule="2-3 listeners that exist throughout, one producer (1-3 events), one thread creating / dropping other listeners, MAX_STREAMS = 4; yield points at every bookkeeping access and fan-out position; DISTINCT by trace hash; NON-TRIVIAL if a bookkeeping step of the churn thread falls between two fan-out steps of one send",
     trusted_base=TB_COMMON + ["crossbeam-channel", "std::sync::Arc"],
